@@ -404,6 +404,7 @@ func runC04(c *Ctx) error {
 		return err
 	}
 	hashHistoryCheck(c)
+	zoneHistoryCheck(c)
 	for _, g := range groups {
 		ref := cases[g.idx[0]]
 		refRes := ref.Ans.Canon
@@ -426,6 +427,50 @@ func runC04(c *Ctx) error {
 		}
 	}
 	return nil
+}
+
+// zoneHistoryCheck: the time zone a file's OffsetTime tag names must not depend on which offset strings were decoded
+// before in the same process: every ordered pair of a pool of offset strings (equal offsets written differently, distinct
+// offsets, malformed ones), second file decoded alone (zone cache emptied through the verif hook) vs after the first.
+func zoneHistoryCheck(c *Ctx) {
+	pool := []string{"+09:30", "+ 9:30", "+9:30 ", "+09:3 ", "-09:30", "+13:37", "+13:2A", "+13:3G", "+00:00", "-00:00", "+0 :00", "+05:45", "+5 :45", "-05:45", "+14:00", "+1 :00", "+01:00", "Z", "+0100 ", "+01-00"}
+	mk := func(off string) []byte {
+		r := lrec{modify: "2021:02:03 04:05:06", original: "2020:01:02 03:04:05", off: off, offOrig: off}
+		return buildTIFF(c, r, false, layoutOpt{})
+	}
+	show := func(b []byte) string {
+		var out string
+		safely(func() {
+			e, err := exif2.Parse(bytes.NewReader(b))
+			m, o := e.ModifyDate(), e.DateTimeOriginal()
+			_, mo := m.Zone()
+			_, oo := o.Zone()
+			out = fmt.Sprintf("%v %s %d %s %d", err != nil, m.Format("2006-01-02T15:04:05 MST"), mo, o.Format("2006-01-02T15:04:05 MST"), oo)
+		})
+		return out
+	}
+	files := make([][]byte, len(pool))
+	for i, s := range pool {
+		files[i] = mk(s)
+	}
+	for i := range pool {
+		for j := range pool {
+			if i == j {
+				continue
+			}
+			exif2.VerifResetTimeZones()
+			alone := show(files[j])
+			exif2.VerifResetTimeZones()
+			show(files[i])
+			after := show(files[j])
+			c.Count(fmt.Sprint("zone", i, j), true)
+			c.Stat("history.zone-pair")
+			if alone != after {
+				c.Violate(Case{Entry: "Parse", Input: fmt.Sprintf("OffsetTime %q decoded after a file with OffsetTime %q", pool[j], pool[i]), Expected: alone, Actual: after,
+					Kind: "wrong-value", Class: "history:zone-name", Note: "zone cache emptied vs one earlier decode"})
+			}
+		}
+	}
 }
 
 // hashHistoryCheck: the four hashing entry points on images of every kind (incl. NRGBA with fully transparent pixels):
